@@ -594,7 +594,7 @@ func setReplicatorNextRetry(
 // The retry process is as follows:
 // 1. Query the retry docs for the replicator.
 // 2. For each doc, retry the doc.
-// 3. If the doc is successfully retried, delete the retry doc.
+// 3. If the doc is successfully retried, delete the retry doc (done by retryDoc in the transaction it read the heads from).
 // 4. If the doc fails to retry, stop retrying the rest of the docs and wait for the next retry.
 // 5. If all docs are successfully retried, delete the replicator retry.
 // 6. If there are more docs to retry, set the next retry time to be immediate.
@@ -644,10 +644,6 @@ func (p *Peer) retryReplicator(ctx context.Context, peerID string) {
 			}
 			// if one doc fails, stop retrying the rest and just wait for the next retry
 			return
-		}
-		err = datastore.PeerstoreFrom(p.db.Rootstore()).Delete(ctx, key.Bytes())
-		if err != nil {
-			log.ErrorContextE(ctx, "Failed to delete retry docID", err)
 		}
 	}
 
@@ -770,7 +766,16 @@ func (p *Peer) retryDoc(ctx context.Context, peerIDString string, docID string) 
 			return err
 		}
 	}
-	return nil
+
+	// The doc no longer needs to be retried. This is done within the transaction the heads were read from so
+	// that it fails with a conflict, and the doc is retried again, if the doc has been updated in the meantime:
+	// a failed push of that update would have been recorded on the retry doc key that is deleted here.
+	docIDKey := keys.NewReplicatorRetryDocIDKey(peerIDString, docID)
+	err = txn.Peerstore().Delete(ctx, docIDKey.Bytes())
+	if err != nil {
+		return err
+	}
+	return txn.Commit(ctx)
 }
 
 // deleteReplicatorRetryIfNoMoreDocs deletes the replicator retry key if there are no more docs to retry.
